@@ -25,6 +25,8 @@ RUNS = {
         {"name": "K8-qid", "mode": "kqid", "budget": (4000, 120000), "nontrivial": r"ok=0|q=9223|path=", "keyfn": "generic"},
         {"name": "K8-mode-table", "mode": "kmode", "budget": (2000, 50000), "nontrivial": r"back=", "keyfn": "generic", "exhaustive": True},
         {"name": "K8-mapper-concurrent", "mode": "kmapc", "budget": (30, 600), "nontrivial": r".", "keyfn": "generic"},
+        {"name": "K8-mapper-never-forgets", "mode": "kmapbig", "budget": (3, 40), "nontrivial": r".", "keyfn": "generic"},
+        {"name": "K8-qid-type-of-every-host-file-kind", "mode": "kltype", "budget": (2, 20), "nontrivial": r"kind=", "keyfn": "generic"},
     ],
     "C17": [
         {"name": "K3-segmentation", "mode": "k3", "budget": (120, 3000), "nontrivial": r"recv\d+=(msg|proto)", "keyfn": "generic"},
@@ -61,6 +63,8 @@ RUNS = {
     ],
     "C19": [
         {"name": "K8-readdir", "mode": "k19", "budget": (600, 6000), "nontrivial": r"pages=([3-9]|\d\d)", "keyfn": "generic"},
+        {"name": "K8-mapper-never-forgets", "mode": "kmapbig", "budget": (3, 40), "nontrivial": r".", "keyfn": "generic"},
+        {"name": "K8-qid-type-of-every-host-file-kind", "mode": "kltype", "budget": (2, 20), "nontrivial": r"kind=", "keyfn": "generic"},
     ],
     "C03": [
         {"name": "K6-client-server", "mode": "kcs", "budget": (6000, 60000), "nontrivial": r" c0=", "keyfn": "kcs"},
@@ -69,6 +73,7 @@ RUNS = {
     "C10": [
         {"name": "K6-pool", "mode": "kpool", "budget": (10000, 100000), "nontrivial": r"x", "keyfn": "generic"},
         {"name": "K6-mux", "mode": "kmux", "budget": (1500, 15000), "nontrivial": r".", "keyfn": "generic"},
+        {"name": "K6-reply-before-the-sender-returns", "mode": "kearly", "budget": (12, 300), "nontrivial": r"aok=1", "keyfn": "generic"},
         {"name": "K6-fid-in-flight", "mode": "kmuxfid", "budget": (60, 2000), "nontrivial": r"formed=1", "keyfn": "generic"},
         {"name": "K6-failed-send-leaves-nothing", "mode": "kstale", "budget": (40, 1500), "nontrivial": r"formed=1", "keyfn": "generic"},
     ],
@@ -77,7 +82,7 @@ RUNS = {
         {"name": "K7-tag-reuse", "mode": "k7reuse", "budget": (20, 400), "nontrivial": r".", "keyfn": "generic"},
         {"name": "K7-mutual-flushes", "mode": "kmutual", "budget": (60000, 2000000), "nontrivial": r"stuck=0", "keyfn": "generic"},
         {"name": "K7-flush-replies", "mode": "k7flush", "budget": (60, 1500), "nontrivial": r"rflush=1", "keyfn": "generic"},
-        {"name": "K7-pairs-delay", "mode": "k7pair", "budget": (320, 968), "nontrivial": r"overlap=1", "keyfn": "k7pair"},
+        {"name": "K7-pairs-delay", "mode": "k7pair", "budget": (1058, 3174), "nontrivial": r"overlap=1", "keyfn": "k7pair"},
         {"name": "K7-scenarios", "mode": "k7scen", "budget": (8, 150), "nontrivial": r".", "keyfn": "k7scen"},
         {"name": "K7-tags-race", "mode": "k7tags", "budget": (0, 300), "nontrivial": r"missing=0", "keyfn": "generic", "race": True, "tiers": ["thorough"]},
     ],
@@ -103,6 +108,7 @@ RUNS = {
     ],
     "C02": [
         {"name": "K2-framing", "mode": "k2", "budget": (1500, 40000), "nontrivial": r"recv\d+=(msg|proto)", "keyfn": "k2"},
+        {"name": "K2-server-receive-loop", "mode": "k2srv", "budget": (400, 12000), "nontrivial": r"replies=\d", "keyfn": "generic"},
         {"name": "K2-limit-after-version", "mode": "kmsz", "budget": (400, 20000), "nontrivial": r"reply=0", "keyfn": "generic"},
         {"name": "K3-both-read-paths", "mode": "k3", "budget": (40, 1000), "nontrivial": r"recv\d+=(msg|proto)", "keyfn": "generic"},
         {"name": "K7-messages-intact-while-in-use", "mode": "kalias", "budget": (70, 1400), "nontrivial": r"answered=1", "keyfn": "generic"},
@@ -683,6 +689,17 @@ for _p in ("C01", "C02", "C03", "C18"):
         "inside its backend call while 4..14 further frames (same type with other strings of the same lengths, and getattrs) are received on this and "
         "another connection; at the end of the call its arguments must read as at its beginning; 120..400 pipelined reads whose reply writers block must "
         "each carry the bytes the backend produced for that request.")
+PROPS["C02"]["rule"] = PROPS["C02"].get("rule", "") + (" k2srv: the server's own receive loop in lock-step: 0..5 frames that are valid (unbound fid), of unknown "
+    "type, too short, with inconsistent counts or with a string past the frame - each answered with Rlerror under its tag - then a header whose size field is "
+    "below 7 or above the negotiated msize, with no body: no reply, Handle returns; expectations from recv1 over the same bytes.")
+PROPS["C10"]["rule"] = PROPS["C10"].get("rule", "") + (" kearly: a fake server that answers while the request is still being written (Write returns after "
+    "the reply was consumed): call A holds the receive token waiting for a withheld reply, 1..3 further calls are answered before their senders "
+    "come back from Write - each must get its own reply, A too.")
+for _p in ("C19", "C20"):
+    PROPS[_p]["rule"] = PROPS[_p].get("rule", "") + (" kltype: a localfs tree with a regular file, directory, symlink, fifo, socket, character and block "
+        "device (mknod; skipped where the host refuses): the QID type from Walk, GetAttr and Readdir equals the QID type of the reported mode.")
+    PROPS[_p]["rule"] = PROPS[_p].get("rule", "") + (" kmapbig: 70 000 .. 300 000 distinct source paths through one mapper (every thousandth through a second "
+        "one sharing the generator), then 2000 earlier ones again: same answers, no two sources share a path.")
 PROPS["C10"]["level_text"] += (" Recycled response objects (Conc/RespPool.lean, after defect D20): over all clients of the process and every "
     "interleaving of calls starting, failing to send, being answered, connections failing and calls returning, a pooled response is referenced "
     "by no pending map and its channel is empty, no response serves two calls, and handleOne never blocks on a done channel while holding the "
